@@ -606,6 +606,7 @@ class implicitmodel(timemodel):
             epsdiff * np.sum(np.abs(q)) / field.nelem
             for q in field.data
         ]
+        eps = [e if e > 0. else epsdiff for e in eps] # identically zero component (e.g. momentum at rest)
         self.calcrhs(field)
         refrhs = [qf.copy() for qf in self.residual]
         for i in range(field.nelem):  # for all variables (nelem*neq)
